@@ -378,11 +378,21 @@ def gen_block(rng: random.Random, depth: int, allow: List[str]) -> List[Any]:
         return ['para', gen_inlines(rng)]
     if k in ('ulist', 'olist'):
         items = []
+        inner_allow = [a for a in allow if a != 'section']
         for _ in range(rng.randint(1, 3)):
-            item = [['para', gen_inlines(rng, n=rng.randint(1, 5))]]
-            if rng.random() < 0.35:
-                item.append(gen_block(rng, depth + 1, [a for a in allow if a in ('para', 'ulist', 'olist')]))
-            items.append(item)
+            r = rng.random()
+            if r < 0.2 and 'literal' in allow:
+                # the paragraph of the item itself introduces a literal block (often wrapped over several lines)
+                item = [['literal', gen_inlines(rng, n=rng.choice([2, 4, 9, 14])), gen_literal(rng)]]
+            else:
+                item = [['para', gen_inlines(rng, n=rng.choice([1, 2, 3, 5, 9, 14]))]]
+            if rng.random() < 0.4:
+                for _ in range(rng.randint(1, 2)):
+                    item.append(gen_block(rng, depth + 1, inner_allow))
+            if item[-1][0] != 'para' and rng.random() < 0.6:
+                # the item goes on after the block
+                item.append(['para', gen_inlines(rng, n=rng.randint(1, 6))])
+            items.append(separate(rng, item))
         return [k, items]
     if k == 'literal':
         return ['literal', gen_inlines(rng, rich=False, n=rng.randint(1, 4)), gen_literal(rng)]
@@ -512,7 +522,7 @@ def gen_doc(rng: random.Random, fmt: str) -> Dict[str, Any]:
     admons = gen_admons(rng, fmt)
     cut = rng.randint(0, len(admons))
     return {'obj': obj, 'sig': sig, 'blocks': blocks, 'fields': fields, 'admons': admons[:cut], 'admons_after': admons[cut:],
-            'rst_style': rng.choice(['plain', 'plain', 'bullet', 'deflist']),
+            'rst_style': rng.choice(['plain', 'plain', 'bullet', 'deflist']), 'width': rng.choice([30, 44, 68, 68]),
             'alias': rng.randrange(1 << 16)}
 
 
@@ -644,18 +654,27 @@ def ser_blocks(blocks: List[Any], fmt: str, ind: int, width: int) -> List[str]:
                 continue
             for n, item in enumerate(b[1]):
                 bullet = '- ' if k == 'ulist' else '%d. ' % (n + 1)
-                if n and fmt != 'epytext':
-                    out.append('')
-                first = item[0]
-                out += wrap(inline_atoms(first[1], fmt), width, pad + bullet, pad + ' ' * len(bullet))
-                for nb in item[1:]:
-                    out.append('')
+                if n and (fmt != 'epytext' or b[1][n - 1][-1][0] != 'para'):
+                    out.append('')          # (epytext: a doctest block ends at a blank line)
+                inner: List[str] = []
+                for nb in item:
+                    if inner:
+                        inner.append('')
                     extra = 2 if (fmt == 'epytext' and nb[0] in ('ulist', 'olist')) else 0
-                    out += ser_blocks([nb], fmt, ind + len(bullet) + extra, width)
+                    inner += ser_blocks([nb], fmt, ind + len(bullet) + extra, width)
+                # the bullet goes in front of the first line of the item (a paragraph, or the paragraph introducing a literal)
+                inner[0] = pad + bullet + inner[0][ind + len(bullet):]
+                out += inner
         elif k == 'literal':
             atoms = inline_atoms(b[1], fmt)
             atoms[-1] = atoms[-1] + '::'
-            out += wrap(atoms, width, pad, pad)
+            plines = wrap(atoms, width, pad, pad)
+            if fmt == 'epytext' and ind > 0 and len(plines) == 1 and len(atoms) >= 2:
+                # epytext cannot know the indentation of a ONE-line list-item paragraph: what follows the literal block
+                # in the item would be read as part of it.  Authors wrap such a paragraph; so do we.
+                cut = (len(atoms) + 1) // 2
+                plines = [pad + ' '.join(atoms[:cut]), pad + ' '.join(atoms[cut:])]
+            out += plines
             out.append('')
             out += [(pad + '    ' + l) if l else '' for l in b[2].split('\n')]
         elif k == 'doctest':
@@ -752,7 +771,8 @@ def ser_admons(admons: List[Any], fmt: str, width: int) -> List[str]:
     return lines
 
 
-def serialise(doc: Dict[str, Any], fmt: str, width: int = 68) -> str:
+def serialise(doc: Dict[str, Any], fmt: str, width: int = 0) -> str:
+    width = width or doc.get('width', 68)
     fields = doc['fields']
     if fmt == 'epytext':
         lines = ser_blocks(doc['blocks'], fmt, 0, width)
@@ -984,3 +1004,41 @@ def inline_visible(items: List[Any]) -> str:
         else:
             out += inline_visible(it[2])
     return out
+
+
+# ------------------------------------------------------------------------------------------------ document corpus
+def _w(*ws: str) -> List[List[Any]]:
+    return [['w', w] for w in ws]
+
+
+DOC_CORPUS: List[Dict[str, Any]] = [
+    # a list item whose paragraph is wrapped over two lines, introduces a literal block, and goes on afterwards
+    {'obj': 'func', 'sig': [], 'fields': [], 'admons': [], 'admons_after': [], 'rst_style': 'plain', 'width': 44, 'alias': 0,
+     'blocks': [['para', _w('Summary', 'line.')],
+                ['para', _w('Things', 'to', 'know')],
+                ['ulist', [
+                    [['literal', _w('the', 'first', 'item', 'has', 'a', 'paragraph', 'that', 'is', 'wrapped', 'over', 'two', 'lines',
+                                    'and', 'introduces', 'code'),
+                      'first = [1,\n         2]\nsecond   B{kept verbatim} *x* `y`'],
+                     ['para', _w('afterwards', 'the') + [['i', ['item']], ['w', 'goes'], ['b', ['on']], ['w', 'normally']]]],
+                    [['para', _w('the', 'second', 'item', 'is', 'short')]]]],
+                ['para', _w('Closing', 'words.')]]},
+    # the same one and two levels deeper, with a doctest block and a nested list after the literal
+    {'obj': 'func', 'sig': [], 'fields': [], 'admons': [], 'admons_after': [], 'rst_style': 'plain', 'width': 40, 'alias': 0,
+     'blocks': [['para', _w('Summary', 'line.')],
+                ['olist', [
+                    [['para', _w('outer', 'item', 'one', 'with', 'enough', 'words', 'to', 'be', 'wrapped', 'over', 'two', 'lines')],
+                     ['ulist', [
+                         [['literal', _w('inner', 'item', 'paragraph', 'that', 'is', 'long', 'enough', 'to', 'wrap', 'and', 'ends',
+                                         'with', 'code'), 'x = {1: 2}\n  indented  more\nI{raw}'],
+                          ['para', _w('inner', 'goes') + [['b', ['on']]]],
+                          ['doctest', '>>> f(1)\n42'],
+                          ['para', _w('after', 'the', 'doctest')],
+                          ['ulist', [[['literal', _w('deepest', 'item', 'also', 'wraps', 'over', 'more', 'than', 'one', 'line', 'here'),
+                                       'deep = 1\n    deeper'],
+                                      ['para', [['i', ['still']], ['w', 'the'], ['w', 'deepest']]]]]]],
+                         [['para', _w('inner', 'two')]]]],
+                     ['para', _w('outer', 'item', 'one', 'ends')]],
+                    [['para', _w('outer', 'item', 'two')]]]],
+                ['para', _w('Closing', 'words.')]]},
+]
